@@ -28,6 +28,7 @@ ENCODED = [conventions.StorageKeyFormingConvention.make_v1_key, conventions.Stor
            progress.AnnotationsProgressStorage, progress.StatusProgressStorage, progress.SmartProgressStorage,
            diffbase.AnnotationsDiffBaseStorage, diffbase.StatusDiffBaseStorage]
 META = {
+    'technique': 'bounded symbolic execution of the real kopf code (CrossHair 0.0.110 + z3): exhaustive path exploration per obligation cell, counterexamples replayed concretely; plus direct z3 queries whose formulas are generated from the source AST of the real functions (vkopf/astsmt.py; annotation-name validity and distinctness at the real limits 63/253 for ids up to 300 characters), validated against the real code on concrete vectors on every run',
     'bounds': 'H1: ids over [aZ0_./<>-] of length 1..5 with the name limit scaled to 4 (v2) / whole-key limit 9 (v1), i.e. both the '
               'uncut and the cut+suffix branches; suffix = any string of the lemma shape (concrete representative "-Ab", "-x.y-Z9"). '
               'H1b: all 2^32 digests. H1c (E4, smt_names/smt_distinct): the REAL limits 63/253, ids of 1..300 characters over '
